@@ -98,13 +98,13 @@ func msgFor(typ uint64, mask int, vi int) gen.Msg {
 	v := func(k int) uint64 { return c09Vals[(vi+k)%len(c09Vals)] }
 	if mask&1 != 0 {
 		m.HasData = true
-		m.Data = [][]byte{{}, {1}, []byte("hello"), bytes.Repeat([]byte{0xff}, 130)}[vi%4]
+		m.Data = [][]byte{{}, {1}, []byte("hello"), bytes.Repeat([]byte{0xff}, 130), bytes.Repeat([]byte{7}, 1000+(vi+mask)%18), {2}}[(vi+mask/16)%6]
 	}
 	if mask&2 != 0 {
 		m.FileSize = gen.U64(v(1))
 	}
 	if mask&4 != 0 {
-		n := []int{1, 3, 100, 2}[vi%4]
+		n := []int{1, 3, 100, 2, 1025, 1, 5000, 4}[(vi+mask/8)%8]
 		for i := 0; i < n; i++ {
 			m.BlockSizes = append(m.BlockSizes, v(i))
 		}
